@@ -9,6 +9,7 @@ structure Ctx where
   m : Mode
   elem : Elem
   prev : RState           -- root state before the op (from the harness's previous observation)
+  fault : Bool := false   -- the op line carries a `!cmp:k` / `!key:k` fault token (sort comparator / key function made to panic)
 
 def Ctx.td (cx : Ctx) : TD Nat := ⟨cx.prev.data, cx.prev.r, cx.prev.c⟩
 
@@ -49,10 +50,10 @@ def stepCtor (cx : Ctx) (op : String) (args : List String) : Option MOut :=
   match op, args with
   | "new", [c, r] => do
     let c ← nat? c; let r ← nat? r
-    pure (fromRes (TD.new c r 0) [])
+    pure (fromRes (TD.new cx.capLimit c r 0) [])
   | "init", [c, r, v] => do
     let c ← nat? c; let r ← nat? r; let v ← nat? v
-    let res := TD.init c r (cx.v v)
+    let res := TD.init cx.capLimit c r (cx.v v)
     -- `vec![v; 0]` drops `v`; on a panic the harness's `v` is dropped too
     match res with
     | .ok t => pure { cx.ofTD t with drops := cx.dr (old ++ (if t.data.isEmpty then [cx.v v] else [])) }
@@ -63,8 +64,10 @@ def stepCtor (cx : Ctx) (op : String) (args : List String) : Option MOut :=
   | "default", [] => pure (fromRes (pure TD.default) [])
   | "with_capacity", [n] => do
     let n ← nat? n
-    -- Vec::with_capacity panics with "capacity overflow" beyond the limit
-    if n ≤ cx.capLimit then pure (fromRes (pure (TD.withCapacity n)) []) else pure (cx.fail .panic)
+    -- on a panic nothing was assigned: the old array stays
+    match (TD.withCapacity cx.capLimit n : Res (TD Nat)) with
+    | .ok t => pure (fromRes (pure t) [])
+    | .error e => pure (cx.fail e)
   | _, _ => none
 
 /-! ### receiver-generic access -/
